@@ -83,7 +83,7 @@ def gen_case(rng, max_ops, mirror=False, ncomp=5):
         ws = rng.choice(wss)
         kind = rng.weighted([("ins", 22), ("ext", 12), ("rem", 18), ("ead", 8), ("erm", 8), ("wrt", 6),
                              ("clr", 2), ("shr", 3), ("rsv", 3), ("rset", 2), ("cln", 3), ("clf", 3),
-                             ("srd", 4), ("eq", 3), ("drop", 1), ("new", 1), ("qry", 9), ("eqry", 4), ("nqry", 5), ("qwr", 3), ("mde", 6), ("pqry", 7), ("pqwr", 3), ("erm2", 4), ("xrg", 2)])
+                             ("srd", 4), ("eq", 3), ("drop", 1), ("new", 1), ("qry", 9), ("eqry", 4), ("nqry", 5), ("qwr", 3), ("mde", 6), ("pqry", 7), ("pqwr", 3), ("erm2", 4), ("xrg", 2), ("ead2", 4)])
         if kind == "ins":
             mask = rng.choice(palette) if rng.chance(5, 6) else anymask()
             desc = rng.below(2)
@@ -137,6 +137,8 @@ def gen_case(rng, max_ops, mirror=False, ncomp=5):
             lines.append("wrt %d %s %d %d" % (ws, target(ws), rng.below(NCOMP), fresh()))
         elif kind == "erm2":
             lines.append("erm2 %d %s %d %d %d" % (ws, target(ws), rng.below(NCOMP), rng.below(NCOMP), fresh()))
+        elif kind == "ead2":
+            lines.append("ead2 %d %s %d %d %d %d %d" % (ws, target(ws), rng.below(NCOMP), fresh(), rng.below(NCOMP), fresh(), rng.below(2)))
         elif kind == "clr":
             lines.append("clr %d" % ws)
             freec[ws] += len(live[ws])
@@ -393,7 +395,9 @@ def alloc_problems(impl_case):
     return probs, leaks
 
 
-K17_CLASSES = {("rem", "drop"): "K17a", ("clr", "drop"): "K17b", ("clf", "clone"): "K17c", ("clf", "drop"): "K17c"}
+# (F8b, a panicking Drop during clear, was repaired by /repo commit f9f2365: no class K17b any more — a fixed entry
+#  suppresses nothing; a destination-only archetype cleared by clone_from goes through the same repaired code)
+K17_CLASSES = {("rem", "drop"): "K17a", ("clf", "clone"): "K17c", ("clf", "drop"): "K17c"}
 
 
 def audited_double_drops(impl_case):
@@ -455,16 +459,16 @@ def oracle_fault_case(impl_case):
         cls = K17_CLASSES.get((opk, kind))
         if cls == "K17c":
             # F8c is about a destination column that is truncated (destination archetype longer than the source's)
-            # or grown (shorter) through the local Vec, or a destination-only archetype being cleared (the K17b
-            # mechanism inside clone_from).  With equal lengths on every shared archetype and nothing to clear,
-            # World::clone_from is panic-safe in the unchanged code: anything seen then is NOT the known class.
+            # or grown (shorter) through the local Vec.  With equal lengths on every shared archetype
+            # World::clone_from is panic-safe: anything seen then is NOT the known class.  (A destination-only
+            # archetype is cleared through Archetype::clear_detached, which is panic-safe since f9f2365.)
             tt = target["op"].split()
             before = steps[fi]["worlds"]
             dstw, srcw = before.get(int(tt[1])), before.get(int(tt[2]))
             if dstw is not None and srcw is not None:
                 la = {b_: len(r_) for b_, r_ in dstw["archs"]}
                 lb = {b_: len(r_) for b_, r_ in srcw["archs"]}
-                differs = any(la[b_] != lb.get(b_, 0) for b_ in la)
+                differs = any(la[b_] != lb[b_] for b_ in la if b_ in lb)
                 if not differs:
                     cls = None
         if cls:
@@ -1027,6 +1031,19 @@ class RefWorlds:
             ws = int(t[1])
             if ws in self.res:
                 self.res[ws][int(t[2])] = norm_val(100 + int(t[2]), int(t[3]))
+        elif k == "ead2":
+            ws = int(t[1])
+            if ws in self.maps:
+                e = eid(t[2])
+                present = e in self.maps[ws]
+                if present:
+                    self.maps[ws][e][int(t[3])] = norm_val(int(t[3]), int(t[4]))
+                    if int(t[7]) == 1:
+                        self.maps[ws][e].pop(int(t[5]), None)
+                    else:
+                        self.maps[ws][e][int(t[5])] = norm_val(int(t[5]), int(t[6]))
+                if not ret.startswith("bool %s" % str(present).lower()):
+                    fails.append(("C02", "ead2 on %s: expected %s got %r" % (e, present, ret)))
         elif k == "erm2":
             ws = int(t[1])
             if ws in self.maps:
@@ -1237,7 +1254,7 @@ def oracle_case(impl_case):
                     f = len(pw["free"])
                     if f > 0:
                         corners.add("batch<free" if len(ids) < f else "batch=free" if len(ids) == f else "batch>free")
-        if k in ("ead", "erm", "erm2") and (st["ret"] or "").startswith("bool true"):
+        if k in ("ead", "erm", "erm2", "ead2") and (st["ret"] or "").startswith("bool true"):
             corners.add("shape-change")
         if k == "shr":
             corners.add("shrink")
@@ -1254,6 +1271,18 @@ def oracle_case(impl_case):
                 # c2 != c: the present value of c2 is overwritten; c2 == c: the value of c is dropped by the
                 # removal and a new one (possibly with the same payload) is added
                 overwritten = (int(t[4]), comps_[int(t[4])])
+        ead2_drops = None
+        if k == "ead2" and int(t[1]) in ref.maps:
+            comps_ = ref.maps[int(t[1])].get(eid(t[2]))
+            ead2_drops = Counter()
+            if comps_ is not None:
+                cur_ = dict(comps_)
+                c1_, c2_ = int(t[3]), int(t[5])
+                if c1_ in cur_:
+                    ead2_drops["D:%d:%d" % (c1_, cur_[c1_])] += 1
+                cur_[c1_] = norm_val(c1_, int(t[4]))
+                if c2_ in cur_:
+                    ead2_drops["D:%d:%d" % (c2_, cur_[c2_])] += 1
         qwr_drops = None
         if k in ("qwr", "pqwr") and int(t[1]) in ref.maps:
             qvs, qf = parse_views_text(t[4]), parse_filter_text(t[5])
@@ -1333,6 +1362,8 @@ def oracle_case(impl_case):
                     for _x in range(cnt_):
                         exp["D:%d:%d" % (c_, norm_val(c_, int(t[p_])))] += 1
                         p_ += 1
+        elif k == "ead2":
+            exp = ead2_drops if ead2_drops is not None else Counter()
         elif k in ("qwr", "pqwr"):
             exp = qwr_drops if qwr_drops is not None else Counter()
         else:
